@@ -207,11 +207,12 @@ class BaseNode(Node):
             if isinstance(nodes[0].value, Type):
                 # take the current value of the referenced node (after all its modifications)
                 value = nodes[0].value.value
-                if node.value_slice and value is not None:
-                    value = self.slice_value(list(node.value_slice), value)
+                if node.value_slice:
+                    if value is not None:
+                        value = self.slice_value(list(node.value_slice), value)
+                        if not node.dimension and not np.isscalar(value):
+                            raise Exception("Array value set to scalar node:",node.code,value)
                     node.value_slice = None
-                    if not node.dimension and not np.isscalar(value):
-                        raise Exception("Array value set to scalar node:",node.code,value)
                 node.value_raw = self.raw_value(value, isinstance(nodes[0].value, IntegerType))
             else:
                 node.value_raw = nodes[0].value_raw
